@@ -356,3 +356,61 @@ Proof.
 Qed.
 Lemma ub_notin : forall s S, ub_stmt S s = true -> forall i, In i (cbinders s) -> ~ In i S.
 Proof. apply ub_notin_all. Qed.
+
+(* ---------- identifiers with the same id have the same name (what `uniquify` guarantees) ----------
+   [nc_stmt L s]: every variable occurrence of s is, by id, the first entry of L (the names in scope,
+   innermost first) with that id - and spelled the same. *)
+Definition nc_var (L : list cident) (x : cident) : bool :=
+  match find (fun y => N.eqb (cid_id y) (cid_id x)) L with
+  | Some y => cident_eqb y x
+  | None => false
+  end.
+Fixpoint nc_term (L : list cident) (t : fsterm) {struct t} : bool :=
+  match t with
+  | FsXVar _ v _ => nc_var L v
+  | FsLit _ => true
+  | FsOp a _ b => nc_var L a && nc_var L b
+  | FsMu _ v s _ => nc_stmt (v :: L) s
+  | FsXtor _ _ args _ => forallb (nc_var L) (cvars args)
+  | FsXCase _ cls _ =>
+      (fix go (cls : list fsclause) : bool :=
+         match cls with
+         | [] => true
+         | FsClause _ _ ctx body :: r => nc_stmt (cvars ctx ++ L) body && go r
+         end) cls
+  end
+with nc_stmt (L : list cident) (s : fsstmt) {struct s} : bool :=
+  match s with
+  | FsCut p _ k => nc_term L p && nc_term L k
+  | FsIfC _ a b t e => nc_var L a && match b with Some b' => nc_var L b' | None => true end && nc_stmt L t && nc_stmt L e
+  | FsPrint _ a next => nc_var L a && nc_stmt L next
+  | FsCall _ args => forallb (nc_var L) (cvars args)
+  | FsExit v => nc_var L v
+  end.
+Definition nc_clauses (L : list cident) (cls : list fsclause) : bool :=
+  forallb (fun cl => nc_stmt (cvars (clause_ctx cl) ++ L) (clause_body cl)) cls.
+Lemma nc_term_xcase : forall L c cls t, nc_term L (FsXCase c cls t) = nc_clauses L cls.
+Proof.
+  intros. simpl. unfold nc_clauses. induction cls as [|[c' x ctx b] r IH]; [reflexivity|]. simpl. now rewrite IH.
+Qed.
+Lemma nc_clauses_in : forall L cls cl, nc_clauses L cls = true -> In cl cls ->
+  nc_stmt (cvars (clause_ctx cl) ++ L) (clause_body cl) = true.
+Proof. intros L cls cl H Hin. unfold nc_clauses in H. rewrite forallb_forall in H. now apply H. Qed.
+
+(* inversion at a cut *)
+Lemma nc_cut : forall L p ty k, nc_stmt L (FsCut p ty k) = true -> nc_term L p = true /\ nc_term L k = true.
+Proof. intros L p ty k H. simpl in H. now apply andb_prop in H. Qed.
+Lemma nc_cut_mu_l : forall L c v s t ty k, nc_stmt L (FsCut (FsMu c v s t) ty k) = true -> nc_stmt (v :: L) s = true.
+Proof. intros. apply nc_cut in H as [H _]. exact H. Qed.
+Lemma nc_cut_mu_r : forall L p ty c v s t, nc_stmt L (FsCut p ty (FsMu c v s t)) = true -> nc_stmt (v :: L) s = true.
+Proof. intros. apply nc_cut in H as [_ H]. exact H. Qed.
+Lemma nc_cut_case_l : forall L c cls t ty k, nc_stmt L (FsCut (FsXCase c cls t) ty k) = true -> nc_clauses L cls = true.
+Proof. intros. apply nc_cut in H as [H _]. now rewrite nc_term_xcase in H. Qed.
+Lemma nc_cut_case_r : forall L p ty c cls t, nc_stmt L (FsCut p ty (FsXCase c cls t)) = true -> nc_clauses L cls = true.
+Proof. intros. apply nc_cut in H as [_ H]. now rewrite nc_term_xcase in H. Qed.
+Lemma nc_print : forall L nl a nx, nc_stmt L (FsPrint nl a nx) = true -> nc_stmt L nx = true.
+Proof. intros L nl a nx H. simpl in H. now apply andb_prop in H. Qed.
+Lemma nc_ifc : forall L so a b t e, nc_stmt L (FsIfC so a b t e) = true -> nc_stmt L t = true /\ nc_stmt L e = true.
+Proof.
+  intros L so a b t e H. simpl in H. apply andb_prop in H as [H He]. apply andb_prop in H as [_ Ht]. auto.
+Qed.
